@@ -82,6 +82,15 @@ def case_b(draw):
             d_["seq"] = d_["seq"][:k_] + d_["seq"][k_:].lower()
     text = gen_graph.gfa_text(g, with_seq=True, extra_tags=extra, link_tags=ltags,
                               order_seed=draw(st.integers(0, 999)), header=draw(st.booleans()))
+    if draw(st.integers(0, 2)) == 0:
+        # LN is optional when the sequence is given: drop it from some S lines
+        out_ = []
+        for line in text.split("\n"):
+            f = line.split("\t")
+            if f[0] == "S" and f[2] != "*" and draw(st.integers(0, 2)) == 0:
+                f = [x for x in f if not x.startswith("LN:i:")]
+            out_.append("\t".join(f))
+        text = "\n".join(out_)
     if draw(st.integers(0, 5)) == 0:
         text = text[:-1]  # no newline after the last record
     return {"kind": "order", "gfa": text, "order": ",".join(order), "by_chrom": draw(st.integers(0, 1)) == 1,
@@ -252,6 +261,8 @@ def run_order_case(case):
         cl.append("soft_masked_bases")
     if not case["gfa"].endswith("\n"):
         cl.append("no_final_newline")
+    if any(not any(t.startswith("LN:") for t in s[1]) for s in segs_in.values()):
+        cl.append("segment_without_LN")
     return core.Result(len(order) >= 2 or case["with_sequence"], cl)
 
 
